@@ -85,6 +85,7 @@ type World struct {
 	Transitions int64
 	Trace       []string // labels of executed points (when TraceOn)
 	TraceOn     bool
+	NoPreempt   bool // while set, no switch away from a thread that can continue (scripted scenario prefixes)
 	MaxAdvances int // how often time may advance (all sleepers wake) when nothing else can run
 	advances    int
 	epoch       int // bumped by every real state change (close/send/tick/commit/environment)
@@ -437,6 +438,9 @@ func (w *World) PointC(label string, free bool, en Cond) {
 		return
 	}
 	idx := 0
+	if w.NoPreempt && len(cands) > 1 && cands[0] == t {
+		cands = cands[:1] // scripted prefix of a scenario: the running thread continues while it can
+	}
 	if len(cands) > 1 {
 		selfEn := cands[0] == t
 		groupEn := selfEn
